@@ -8,6 +8,9 @@ import sys
 
 from harness import common
 
+import logging
+logging.disable(logging.CRITICAL)
+
 
 def main(argv):
     if argv and argv[0] == "--setup":
